@@ -651,7 +651,9 @@ class C01(Prop):
                 "locateOne_tol_ok", "locateOne_tol_error", "locateOne_tol_inf", "locateOne_tol_exact", "loc_list_tol", "mode_loc", "mode_iloc", "mode_default", "mode_ix", "take_position_spec", "take_position_get",
                 "take_position_out_of_range", "take_tuple_pad", "take_tuple_too_long", "take_ellipsis", "take_dict_eq_tuple", "dictKey_mem",
                 "dictKey_not_mem", "take_dict_badkey", "take_axis_eq_tuple", "take_axis_badkey", "take_keepdims_spec", "take_keepdims_label",
-                "take_keepdims_none_counterexample", "take_mask_any_cfg", "mask_positions", "locateOne_tol_iff", "take_tol_spec"]
+                "take_keepdims_none_counterexample", "take_mask_any_cfg", "mask_positions", "locateOne_tol_iff", "take_tol_spec",
+                "take_mask_nd_spec", "take_mask_nd_any_cfg", "take_mask_nd_refuses", "take_mask_nd_rank1_counterexample",
+                "take_axes_index_eq_labels", "take_axes_index_dim", "take_axes_index_badname"]
     rule = ("arrays of rank 0-4, sizes 0-4, int/float/str labels stored increasing/decreasing/shuffled; per-dimension "
             "index from {present scalar, absent scalar, list with repeats/empty/absent members, ndarray, mask, full "
             "slice, Ellipsis}; spellings a[...], take, take(axis=name|pos), dict by name/position, .loc, .sel, .nloc, "
@@ -659,7 +661,10 @@ class C01(Prop):
             "tol= / .nloc with dict, axis= and indexing='label' forms and ndarray requests (finite, zero and infinite "
             "tolerances), tolerance carried by the axis (Axis(tol=), uniform or differing between axes), full-shape N-d "
             "boolean mask (ndarray or DimArray, every accessor, compress), an Axes object as index, keepdims=True in every "
-            "take form, axes whose ordering flag is already cached. Every read is judged twice: against the Lean mirror "
+            "take form, axes whose ordering flag is already cached. STRATUM boolnd goes to the mirror Lib.takeMaskNd "
+            "(= Lib.compressNd for a mask of rank > 1, whatever the accessor / mode / tolerance): dims, shape, the axis of "
+            "label tuples (name, every tuple component), cells in C order, vkind, metadata compared; STRATUM axes_index "
+            "goes to Lib.takeAxesIndex (the Axes object itself: name -> label array per held axis). Every read is judged twice: against the Lean mirror "
             "(when it models the form) and against an oracle computed in Python on exact rationals from the statement. "
             "Non-trivial = rank >= 1 and at least one non-full index; distinct = canonical JSON of the case")
     assumptions = ["labels unique, NaN-free, homogeneous kind per axis",
@@ -1122,9 +1127,11 @@ class C01(Prop):
 
     def lean_cfg(self, c):
         """configuration of the read for the Lean mirror, or None when the mirror has no such read: a full-shape
-        mask (compress), tolerances that differ between the dimensions they matter for"""
+        mask under keepdims (the statement does not speak about it), tolerances that differ between the dimensions
+        they matter for. A full-shape N-d mask goes to `Lib.compressNd` (driver op `compress_nd`): every accessor and
+        every indexing mode reach `compress` before the mode is looked at (Lib.takeMaskNd, driver op `take_mask_nd`)."""
         if c["index"]["form"] == "boolnd":
-            return None
+            return None if c.get("keepdims") else cfg_of(c)
         cfg = cfg_of(c)
         axes = c["array"]["axes"]
         if any(ax.get("tol") is not None for ax in axes):
@@ -1152,8 +1159,14 @@ class C01(Prop):
         if cfg is None:
             return dict(self.DUMMY)
         index = c["index"]
+        if index["form"] == "boolnd":
+            # a[mask] / .loc[mask] / take(mask) / compress(mask): Lib.takeMaskNd = Lib.compressNd (theorem take_mask_nd_spec)
+            return {"op": "take_mask_nd", "arrays": [core.lean_array(gen.clean(c["array"]), None)], "mask": index["mask"],
+                    "mshape": [len(ax["labels"]) for ax in c["array"]["axes"]], "cfg": cfg}
         if index["form"] == "axes":
-            index = {"form": "dict", "items": index["items"]}       # the mapping it stands for
+            # an Axes object: Lib.takeAxesIndex (theorem take_axes_index_eq_labels: the tuple of its label lists)
+            return {"op": "take_axes", "arrays": [core.lean_array(gen.clean(c["array"]), None)], "cfg": cfg,
+                    "axes": [[k[1], x[1]] for k, x in index["items"]]}
         return {"op": "take", "arrays": [core.lean_array(gen.clean(c["array"]), None)], "index": index, "cfg": cfg}
 
     def verdict(self, c, io):
@@ -1175,6 +1188,9 @@ class C01(Prop):
         if self.lean_cfg(c) is None:
             return None
         lean = ans["lib"]
+        if "ok" in lean and c["index"]["form"] == "boolnd":
+            from props.c17 import compress_obs
+            lean = {"ok": compress_obs(lean["ok"])}
         if "ok" in lean:
             a = core.build_array(c["array"], 0)
             env = core.CellEnv([a.values])
